@@ -30,25 +30,26 @@ zzAddW(a, w, W, n) == Split(Add(a, w), W, n)
 zzAddW2(a, w, W, n) == zzAddW(a, w, W, n)
 zzIsSumEq(c, a, b) == Eq(Add(a, b), c)                           \* a + b == c ?  (as integers)
 zzIsSumWEq(b, a, w) == Eq(Add(a, w), b)
-\* (a - b) mod B^n and the borrow (a < b)
-SubModB(a, b, W, n) == IF Less(a, b) THEN Norm(Sub2(Add(a, BPow(W, n)), b)) ELSE Norm(Sub2(a, b))
-zzSub(a, b, W, n) == <<SubModB(a, b, W, n), B01(Less(a, b))>>
+\* subtraction on [n] words: <<c, borrow>> with  c - B^n * borrow == a - x,  0 <= c < B^n  (the identity the header
+\* states for zzSub).  For operands below B^n (n >= 1) the borrow is the header's truth value (a < x); for a word or a
+\* product subtracted from a shorter number it is the borrow WORD.
+SubWithBorrow(a, x, W, n) ==
+  IF Leq(x, a) THEN <<Norm(Sub2(a, x)), Zero>>
+  ELSE LET d == Sub2(x, a)                                     \* d = x - a > 0; borrow = ceil(d / B^n)
+           lo == LoW(d, W, n)  hi == HiW(d, W, n)
+       IN IF IsZero(lo) THEN <<Zero, hi>> ELSE <<Norm(Sub2(BPow(W, n), lo)), Norm(Add(hi, One))>>
+zzSub(a, b, W, n) == SubWithBorrow(a, b, W, n)
 zzSub2(b, a, W, n) == zzSub(b, a, W, n)                          \* b <- b - a
-zzSubW(a, w, W, n) == zzSub(a, w, W, n)
-zzSubW2(a, w, W, n) == zzSub(a, w, W, n)
-zzNeg(a, W, n) == LoW(Sub2(BPow(W, n), a), W, n)                 \* B^n - a  (mod B^n)
+zzSubW(a, w, W, n) == SubWithBorrow(a, w, W, n)
+zzSubW2(a, w, W, n) == SubWithBorrow(a, w, W, n)
+zzNeg(a, W, n) == LoW(Sub2(BPow(W, n), LoW(a, W, n)), W, n)                 \* B^n - a  (mod B^n)
 
 \* ---- multiplicative operations
 zzMulW(a, w, W, n) == Split(Mul(a, w), W, n)
 zzAddMulW(b, a, w, W, n) == Split(Add(b, Mul(a, w)), W, n)
 \* b <- (b - a*w) mod B^n together with the borrow word:  b - a*w == result - B^n * borrow, 0 <= borrow < B.
 \* (the header's "carry <- (b < a*w)" is the truth value of borrow # 0)
-zzSubMulW(b, a, w, W, n) ==
-  LET p == Mul(a, w)
-  IN IF Leq(p, b) THEN <<Norm(Sub2(b, p)), Zero>>
-     ELSE LET d == Sub2(p, b)                                    \* d = a*w - b > 0; borrow = ceil(d / B^n)
-              lo == LoW(d, W, n)  hi == HiW(d, W, n)
-          IN IF IsZero(lo) THEN <<Zero, hi>> ELSE <<Norm(Sub2(BPow(W, n), lo)), Norm(Add(hi, One))>>
+zzSubMulW(b, a, w, W, n) == SubWithBorrow(b, Mul(a, w), W, n)
 zzMul(a, b) == Norm(Mul(a, b))
 zzSqr(a) == Norm(Mul(a, a))
 zzSqrt(a) == LET s == Sqrt(a) IN <<Norm(s), Eq(Mul(s, s), a)>>   \* <<floor(sqrt a), a is a perfect square>>
